@@ -11,6 +11,7 @@ import (
 	"sort"
 	"strings"
 	"sync"
+	"sync/atomic"
 	"time"
 
 	"github.com/nextdns/nextdns/config"
@@ -29,6 +30,9 @@ type udpUp struct {
 	conn *net.UDPConn
 	mu   sync.Mutex
 	seen []string // raw question name bytes (wire labels joined by '.'), non-probe only
+	// probeDelay: how long the answer to a probe is held back (an upstream that is slow to become usable:
+	// queries for it queue in the daemon meanwhile)
+	probeDelay int32 // ms, atomic
 }
 
 func startUDPUp(id, port int) (*udpUp, error) {
@@ -55,6 +59,13 @@ func startUDPUp(id, port int) (*udpUp, error) {
 			}
 			resp := append([]byte{}, buf[:n]...)
 			resp[2] |= 0x80
+			if d := atomic.LoadInt32(&u.probeDelay); d > 0 && strings.HasPrefix(strings.ToLower(name), "probe-test.") {
+				go func(resp []byte, addr *net.UDPAddr) {
+					time.Sleep(time.Duration(d) * time.Millisecond)
+					_, _ = c.WriteToUDP(resp, addr)
+				}(resp, addr)
+				continue
+			}
 			_, _ = c.WriteToUDP(resp, addr)
 		}
 	}()
